@@ -887,7 +887,7 @@ func c11AllAtomsPass(atoms []RetAtom, cutOf func() *cut) bool {
 
 func c11R2(c *Ctx, roles *c11Roles) {
 	const R2 = "C11.R2.sanitisers-reject"
-	c.Expect(R2, 12)
+	c.Expect(R2, 13)
 	for _, fn := range roles.SW {
 		c11R2Lexical(c, R2, fn, true)
 		c11R2WritePathAncestors(c, fn, roles)
@@ -1204,6 +1204,41 @@ func c11R2AncestorWalk(c *Ctx, R2 string, fn *ssa.Function) {
 	}
 	c.Check(R2, tn+"|ancestor-walk-covers-every-parent", L.Pos(), okWalk,
 		ifelse(okWalk, "the walk starts at Dir(rel), steps with Dir(dir) and Lstats base+dir", "the ancestor walk does not start at the entry's parent, does not step to each parent, or does not probe base+ancestor: some ancestor is never checked"))
+	// (b') the loop is left only when the cursor has reached the base (the exit test on the
+	// loop-carried cursor) or with an error: a break / return nil on "exists and is not a
+	// symlink" stops the walk below a symlinked grand-parent
+	var baseExits, otherExits []Edge
+	for _, e := range loop.Exits {
+		isBase := false
+		if ifi, ok := e.From.Instrs[len(e.From.Instrs)-1].(*ssa.If); ok && phi != nil {
+			if bo, ok := ifi.Cond.(*ssa.BinOp); ok && (bo.Op == token.EQL || bo.Op == token.NEQ) {
+				cur := map[ssa.Value]bool{phi: true}
+				_, kx := strip(bo.X).(*ssa.Const)
+				_, ky := strip(bo.Y).(*ssa.Const)
+				if (ky && c11DerivesFrom(bo.X, cur)) || (kx && c11DerivesFrom(bo.Y, cur)) {
+					isBase = true
+				}
+			}
+		}
+		if isBase {
+			baseExits = append(baseExits, e)
+		} else {
+			otherExits = append(otherExits, e)
+		}
+	}
+	okExit := len(baseExits) > 0 && c11AllAtomsPass(atoms, func() *cut { return newCut().Edges(baseExits...) })
+	for _, e := range otherExits {
+		// (success atoms exclude errors returned on the non-nil side of their own test)
+		for _, a := range atoms {
+			ab, ai := a.anchor()
+			if reach(e.To, 0, ab.Instrs[ai], nil) {
+				okExit = false
+			}
+		}
+	}
+	c.Check(R2, tn+"|ancestor-walk-left-only-at-base", L.Pos(), okExit,
+		ifelse(okExit, "the walk is left only through the cursor-reached-the-base test or with an error", "the ancestor walk can be left early (break / successful return) before the cursor reaches the base: "+
+			"a symbolic link higher up is never examined, later entries are written through it"))
 	// (c) every iteration Lstats
 	okIter := true
 	for _, s := range loop.Header.Succs {
@@ -1687,6 +1722,10 @@ var c11Mutants = []Mutant{
 		Old:    "\t\tdir = filepath.Dir(dir)\n\t}",
 		New:    "\t\tdir = \".\"\n\t}",
 		Expect: "C11.R2.sanitisers-reject|~/content/file.resolveRelToBase|ancestor-walk-covers-every-parent"},
+	{Name: "ancestor-walk-stops-at-first-real-dir", File: "content/file/utils.go",
+		Old:    "\t\t} else if info.Mode()&os.ModeSymlink != 0 {\n\t\t\treturn \"\", fmt.Errorf(\"no symbolic link allowed between %q and %q\", baseRel, target)\n\t\t}\n",
+		New:    "\t\t} else if info.Mode()&os.ModeSymlink != 0 {\n\t\t\treturn \"\", fmt.Errorf(\"no symbolic link allowed between %q and %q\", baseRel, target)\n\t\t} else if info.IsDir() {\n\t\t\tbreak\n\t\t}\n",
+		Expect: "C11.R2.sanitisers-reject|~/content/file.resolveRelToBase|ancestor-walk-left-only-at-base"},
 	{Name: "link-target-validated-unresolved", File: "content/file/utils.go",
 		Old:    "\tif _, err := resolveRelToBase(baseAbs, baseRel, path); err != nil {",
 		New:    "\t_ = path\n\tif _, err := resolveRelToBase(baseAbs, baseRel, target); err != nil {",
